@@ -2,6 +2,7 @@
    string literals for the correspondence files, result type, small list tools.
    Stdlib only. *)
 From Coq Require Export ZArith NArith List Bool Lia.
+From Coq Require Import Strings.Byte.
 Export ListNotations.
 
 (* A Python str is a list of Unicode code points. *)
@@ -60,26 +61,32 @@ Definition option_eqb {A} (eqb : A -> A -> bool) (a b : option A) : bool :=
 Definition pair_eqb {A B} (ea : A -> A -> bool) (eb : B -> B -> bool) (a b : A * B) : bool :=
   ea (fst a) (fst b) && eb (snd a) (snd b).
 
-(* ---- packed string literals -------------------------------------------
-   The correspondence harness writes a string as ONE hexadecimal numeral:
-   a leading 1 followed by six hex digits (24 bits) per code point, e.g.
-   "AB" = 0x1000041000042.  [U n] unpacks it.  Parsing one numeral is far
-   cheaper for coqc than parsing a list literal. *)
-Fixpoint unpack_pos (fuel : nat) (n : N) (acc : str) : str :=
-  match fuel with
-  | O => acc
-  | S f => if N.leb n 1 then acc
-           else unpack_pos f (N.shiftr n 24) (N.land n 16777215 :: acc)
+(* ---- string literals for generated files --------------------------------
+   Generated .v files (translator output, correspondence cases) write a Python str as a Coq
+   string literal "..."%bs: printable ASCII 0x20..0x7D except the double quote stands for
+   itself, every other code point is written ~XXXXXX (six hex digits).  [U] decodes it to
+   the list of code points.  A native string literal is an order of magnitude cheaper for
+   coqc to read than a list of numerals. *)
+Inductive bstr := BS (l : list Byte.byte).
+Definition bs_parse (l : list Byte.byte) : bstr := BS l.
+Definition bs_print (b : bstr) : list Byte.byte := match b with BS l => l end.
+Declare Scope bstr_scope.
+Delimit Scope bstr_scope with bs.
+String Notation bstr bs_parse bs_print : bstr_scope.
+
+Definition hexv (b : Byte.byte) : N :=
+  let n := Byte.to_N b in
+  if N.leb 97 n then n - 87 else if N.leb 65 n then n - 55 else n - 48.
+
+Fixpoint unesc (l : list Byte.byte) : str :=
+  match l with
+  | [] => []
+  | Byte.x7e :: a :: b :: c :: d :: e :: f :: rest =>
+      (hexv a * 1048576 + hexv b * 65536 + hexv c * 4096 + hexv d * 256 + hexv e * 16 + hexv f)%N :: unesc rest
+  | x :: rest => Byte.to_N x :: unesc rest
   end.
 
-Definition U (n : N) : str := unpack_pos (N.to_nat (N.size n)) n [].
-
-Fixpoint pack_go (s : str) (acc : N) : N :=
-  match s with
-  | [] => acc
-  | c :: s' => pack_go s' (N.lor (N.shiftl acc 24) c)
-  end.
-Definition pack (s : str) : N := pack_go s 1.
+Definition U (b : bstr) : str := match b with BS l => unesc l end.
 
 (* ---- results of operations that can raise in Python ------------------- *)
 Inductive err := ENotFound | EDuplicate | EValue | EIntegrity | EType | EIndex | EKey | EAttr | EAssert | EOther.
